@@ -60,7 +60,7 @@ def generate(reg, only=None):
         try:
             obs = eng.verify(c)
             rec.update(status="generated", obligations=len(obs), paths=eng.paths, requires_satisfiable=bool(eng.cover_requires),
-                       exits_reached=eng.covered_exits, source_hash=src.fn_hash(q), gen_s=round(time.time() - t, 2),
+                       exits_reached=eng.covered_exits, source_hash=src.fn_hash(c.extra.get('target', q)), gen_s=round(time.time() - t, 2),
                        assumptions=sorted(eng.assumptions))
             obligations += obs
         except Unsupported as e:
